@@ -121,6 +121,7 @@ type hblocks struct {
 }
 
 type envDriver struct {
+	nbad   int // invalid votes delivered so far (chooses how the next one is made invalid)
 	w      *World
 	me     int
 	nd     *Node
@@ -298,7 +299,27 @@ func (d *envDriver) do(a []interface{}) error {
 		}
 		v := d.voteFor(i, typ, h, r, b, id)
 		if a[0].(string) == "badvote" {
-			v.Signature[11] ^= 0x20
+			// "a vote in the name of validator i that does not verify", made concrete in three ways (in turn):
+			// a damaged signature; a vote validly signed by ANOTHER validator under its own address but in i's
+			// slot (index / address mismatch); another validator's signature under i's index and address
+			n := len(d.w.Privs)
+			j := i%n + 1
+			if j == d.me {
+				j = j%n + 1
+			}
+			d.nbad++
+			switch variant := (d.nbad + int(mbt.Seed())) % 3; {
+			case variant == 0 || j == i:
+				v.Signature[11] ^= 0x20
+			case variant == 1:
+				idx := v.ValidatorIndex
+				v = d.voteFor(j, typ, h, r, b, id)
+				v.ValidatorIndex = idx
+			default:
+				idx, ad := v.ValidatorIndex, v.ValidatorAddress
+				v = d.voteFor(j, typ, h, r, b, id)
+				v.ValidatorIndex, v.ValidatorAddress = idx, ad
+			}
 		}
 		cs.VerifHandleMsg(&consensus.VoteMessage{Vote: v}, peerOf(i))
 	case "lastpc":
